@@ -29,10 +29,15 @@ thread_local! {
 pub fn op(label: &str) { CUR_OP.with(|c| { let mut c = c.borrow_mut(); c.clear(); c.push_str(label); }); }
 pub fn cur_op() -> String { CUR_OP.with(|c| c.borrow().clone()) }
 
+/// panic payload used by the shape builder when the library refuses a construction step the properties say must succeed
+pub struct LibraryRefused(pub String);
+pub fn refused<T>(what: &str, err: impl std::fmt::Display) -> T { std::panic::panic_any(LibraryRefused(format!("{}: {}", what, err))) }
+
 pub fn install_panic_hook() {
     std::panic::set_hook(Box::new(|info| {
         let loc = info.location().map(|l| format!("{}:{}", l.file(), l.line())).unwrap_or_default();
-        let msg = if let Some(s) = info.payload().downcast_ref::<&str>() { s.to_string() }
+        let msg = if let Some(r) = info.payload().downcast_ref::<LibraryRefused>() { format!("LIBRARY-REFUSED {}", r.0) }
+            else if let Some(s) = info.payload().downcast_ref::<&str>() { s.to_string() }
             else if let Some(s) = info.payload().downcast_ref::<String>() { s.clone() } else { "panic".to_string() };
         PANIC_INFO.with(|p| *p.borrow_mut() = Some((loc, msg)));
     }));
@@ -152,7 +157,10 @@ pub fn run_one_path(rtm: &mut Option<Rt>, f: fn() -> rt::R, p: Pending) -> (Outc
         Err(_) => {
             let (loc, msg) = PANIC_INFO.with(|p| p.borrow_mut().take()).unwrap_or_default();
             let file = loc.rsplit_once(':').map(|x| x.0).unwrap_or("").to_string();
-            if is_harness_file(&file) {
+            if let Some(what) = msg.strip_prefix("LIBRARY-REFUSED ") {
+                let step = what.split(':').next().unwrap_or("").to_string();
+                (Outcome::Viol { site: format!("library refused a valid construction step ({})", step), msg: what.to_string() }, None)
+            } else if is_harness_file(&file) {
                 (Outcome::Ok, Some((loc, msg)))
             } else {
                 let short = file.rsplit("/src/").next().unwrap_or(&file).to_string();
